@@ -38,6 +38,17 @@ CHECKS["C04"] = dict(
     design_ref="DESIGN.md#c04",
 )
 
+CHECKS["C11"] = dict(
+    category="exploration",
+    text="Real engine runs against a scripted loopback API; the whole event stream is fed to a protocol automaton written from "
+    "the statement. Per base run: stream.stop() after EVERY event index, KeyboardInterrupt thrown into the stream at every "
+    "index, single delays at each guarded schedule point (incl. the consumer's Empty/liveness window), seeded jitter under a "
+    "1us switch interval, single injected worker faults; workers 1/2/4, failure limits, continue_on_failure, unique_inputs.",
+    note="Interleavings are those reachable by delays at the listed points and OS pre-emption; evidence reports distinct signatures, not coverage.",
+    technique="runtime monitoring: online protocol automaton over the real event stream under stop/interrupt enumeration, schedule-point delays and fault injection",
+    design_ref="DESIGN.md#c11",
+)
+
 NOT_APPLICABLE = {}
 
 
